@@ -26,6 +26,14 @@ func main() {
 		cmdGen(os.Args[2:])
 	case "mods":
 		cmdMods(os.Args[2:])
+	case "globals":
+		P, _ := loadProgram("/repo", []string{"./..."})
+		P.scanGlobals()
+		for g, gi := range P.gconst {
+			if strings.Contains(g.Name(), os.Args[2]) {
+				fmt.Printf("%s.%s mutable=%v nonNil=%v whole=%v fields=%d\n", g.Pkg.Pkg.Path(), g.Name(), gi.mutable, gi.nonNil, gi.whole != nil, len(gi.fields))
+			}
+		}
 	default:
 		fmt.Fprintln(os.Stderr, "unknown command", os.Args[1])
 		os.Exit(2)
